@@ -396,6 +396,14 @@ theorem minleak_fixed_unit_norm {n s : Nat} (V : Mat ℂ n s) (hV : frobSq V ≠
     frobSq (minLeakStore true V) = 1 ∧ normAssert ltRe (minLeakStore true V) :=
   ⟨by simpa [minLeakStore] using frobSq_normalize V hV, assert_holds_normalized V hV⟩
 
+/-- Clause "stream counts consistent with the filter shapes" for `initialize_with = 'svd'`: the
+    repaired initialisation keeps exactly `Ns` right singular vectors of the `Nr × Nt` direct
+    channel for every antenna configuration, while the design-round code (which discarded `Nr − Ns`
+    of the `Nt` vectors) produced precoders with a different number of columns whenever `Nt ≠ Nr`. -/
+theorem svd_init_stream_count (nr nt ns : Nat) (h1 : 1 ≤ ns) (h2 : ns ≤ nr) (h3 : ns ≤ nt) :
+    svdInitKept true nr nt ns = ns ∧ (nr ≠ nt → svdInitKept false nr nt ns ≠ ns) :=
+  ⟨svdInitKept_repaired nr nt ns h3, svdInitKept_orig nr nt ns h1 h2 h3⟩
+
 end relations
 
 /-! ## non-vacuity -/
